@@ -405,7 +405,7 @@ func ruleFanOut(w *World, r *Report, rule string) {
 					con := fmt.Sprintf("%s#fan-out(%s)/%s", fi.Name(), exprStr(rs.X), what)
 					r.Fail(rule, con, b.Pos(), "return inside the loop that hands the %s to setInstance: the outputs not yet visited are never tracked or closed, while earlier ones are already cached", fam)
 				case *ast.BranchStmt:
-					if b.Tok == token.BREAK || b.Tok == token.GOTO || (b.Tok == token.CONTINUE && b.Pos() < set.Pos()) {
+					if b.Tok == token.BREAK || b.Tok == token.GOTO {
 						bad++
 						con := fmt.Sprintf("%s#fan-out(%s)/%s", fi.Name(), exprStr(rs.X), b.Tok)
 						r.Fail(rule, con, b.Pos(), "%s inside the fan-out loop strands outputs", b.Tok)
@@ -413,15 +413,22 @@ func ruleFanOut(w *World, r *Report, rule string) {
 				}
 				return true
 			})
-			// the call must not be conditional
-			for _, st := range rs.Body.List {
-				if ifs, ok := st.(*ast.IfStmt); ok {
-					for _, c := range callsIn(ifs.Body, false) {
-						if c == set {
-							bad++
-							r.Fail(rule, fmt.Sprintf("%s#fan-out(%s)/conditional", fi.Name(), exprStr(rs.X)), ifs.Pos(), "setInstance is only called when %s holds: some outputs of the constructor call are never stored or tracked", exprStr(ifs.Cond))
+			// whether an output reaches setInstance may depend on the output itself (a marker
+			// field of the element), never on what happened to the outputs before it
+			conds, _ := controllingCondsInfo(info, il.Body, set.Pos())
+			for _, cd := range conds {
+				onlyElem := true
+				ast.Inspect(cd, func(y ast.Node) bool {
+					if id, ok := y.(*ast.Ident); ok {
+						if v, isVar := info.Uses[id].(*types.Var); isVar && !v.IsField() && !il.IsElem(id) && v != il.Elem {
+							onlyElem = false
 						}
 					}
+					return true
+				})
+				if !onlyElem {
+					bad++
+					r.Fail(rule, fmt.Sprintf("%s#fan-out(%s)/conditional", fi.Name(), exprStr(rs.X)), cd.Pos(), "setInstance is only called when %s holds: some outputs of the constructor call are never stored or tracked", exprStr(cd))
 				}
 			}
 			if bad == 0 {
